@@ -667,39 +667,45 @@ class StmtMixin:
         def in_dom(yy):
             return z3.Exists([i], z3.And(passing, kterm == yy))
 
-        dom = z3.Lambda([y], in_dom(y))
-        st.assume((dom == z3.K(kt.sort(), z3.BoolVal(False))) == z3.Not(z3.Exists([i], passing)))
         if kind == "set":
+            dom = z3.Lambda([y], in_dom(y))
+            st.assume((dom == z3.K(kt.sort(), z3.BoolVal(False))) == z3.Not(z3.Exists([i], passing)))
             return Val(T.Set(kt), dom)
-        # last(y): the LAST passing position whose key is y.  Stated per position (no quantifier over keys):
-        # every passing position i0 is followed (or equalled) by last(key(i0)), a passing position with the same key.
+        # dict with a computed key.  Everything is pattern-driven and existential-free (a lambda over an exists for the domain
+        # made every later obligation of the function time out):
+        #   keyat(i)  names the key expression at position i;
+        #   dom       is an UNINTERPRETED set, characterised in both directions through the Skolem function lastpos:
+        #               passing(i) => dom[keyat(i)]                                  {keyat(i)}
+        #               dom[y]     => passing(lastpos(y)) and keyat(lastpos(y)) == y {dom[y]} {lastpos(y)}
+        #   lastpos(y) is the LAST passing position with key y (Python lets later entries overwrite earlier ones):
+        #               passing(i) => i <= lastpos(keyat(i))                          {lastpos(keyat(i))}
         last = z3.Function(fresh_name("lastpos"), kt.sort(), z3.IntSort())
-        i0 = z3.Int(fresh_name("cp"))
-        # the key expression gets a NAME keyf(i) (an uninterpreted function defined position-wise), so that the axiom
-        # below can always carry the trigger last(keyf(i0)) — without a trigger it is a matching loop for z3 whenever the
-        # key term cannot be a pattern itself (an ite: `m.get(n, n)`)
         keyf = z3.Function(fresh_name("keyat"), z3.IntSort(), kt.sort())
+        dom = z3.Const(fresh_name("compdom"), z3.ArraySort(kt.sort(), z3.BoolSort()))
+        i0 = z3.Int(fresh_name("cp"))
+        # keyat(i) terms are created for every source element term (seq.nth of the iterated sequence), so that facts about
+        # source positions reach the result; the key term itself is tried as a trigger too (not possible for an ite)
+        pats = [keyf(i0)]
+        if info.seqval is not None and not info.seqval.is_py:
+            pats.append(lift(info.seqval)[i0])
         try:
-            st.assume(z3.ForAll([i0], keyf(i0) == at(kterm, i0), patterns=[keyf(i0), at(kterm, i0)]))
+            st.assume(z3.ForAll([i0], keyf(i0) == at(kterm, i0), patterns=pats + [at(kterm, i0)]))
         except z3.Z3Exception:
-            st.assume(z3.ForAll([i0], keyf(i0) == at(kterm, i0)))
-        li = last(keyf(i0))
-        ax = z3.Implies(at(passing, i0), z3.And(at(passing, li), keyf(li) == keyf(i0), i0 <= li))
-        st.assume(z3.ForAll([i0], ax, patterns=[li]))
-        if getattr(self.c, "comp_lastpos_free", False):
-            # the same over the raw key term, with the solver's own triggers (goals about source positions; can be a matching loop)
-            lr = last(at(kterm, i0))
-            st.assume(z3.ForAll([i0], z3.Implies(at(passing, i0), z3.And(at(passing, lr), at(kterm, lr) == at(kterm, i0), i0 <= lr))))
-        # direct consequence: the key of every passing position is in the domain
+            st.assume(z3.ForAll([i0], keyf(i0) == at(kterm, i0), patterns=pats))
         st.assume(z3.ForAll([i0], z3.Implies(at(passing, i0), z3.Select(dom, keyf(i0))), patterns=[keyf(i0)]))
-        # the same, keyed by the result's keys (the form that goals about `k in result` instantiate)
         ly = last(y)
-        st.assume(z3.ForAll([y], z3.Implies(z3.Select(dom, y), z3.And(at(passing, ly), keyf(ly) == y)), patterns=[ly]))
+        st.assume(z3.ForAll([y], z3.Implies(z3.Select(dom, y), z3.And(at(passing, ly), keyf(ly) == y)), patterns=[z3.Select(dom, y), ly]))
+        li = last(keyf(i0))
+        st.assume(z3.ForAll([i0], z3.Implies(at(passing, i0), i0 <= li), patterns=[li]))
+        if getattr(self.c, "comp_lastpos_free", False):
+            # the same over the raw key term, with the solver's own triggers (goals that start from a source position; can loop)
+            lr = last(at(kterm, i0))
+            st.assume(z3.ForAll([i0], z3.Implies(at(passing, i0), z3.And(z3.Select(dom, at(kterm, i0)), at(passing, lr), at(kterm, lr) == at(kterm, i0), i0 <= lr))))
         mp = z3.Lambda([y], at(lift(ve), last(y)))
         rt = T.Dict(kt, ve.ty)
         ks = fresh(T.List(kt), "keys")
         y2 = fresh(kt, "y")
-        st.assume(z3.ForAll([y2], z3.Contains(ks, z3.Unit(y2)) == z3.Select(dom, y2)))
+        st.assume(z3.ForAll([y2], z3.Contains(ks, z3.Unit(y2)) == z3.Select(dom, y2), patterns=[z3.Contains(ks, z3.Unit(y2)), z3.Select(dom, y2)]))
         return Val(rt, rt.sort().mk(dom, mp, ks))
 
     def seq_comprehension(self, node, g, info, st):
